@@ -98,7 +98,9 @@ def run(tier, seed):
         what = {k: (x if not isinstance(x, list) or len(x) <= 80 else x[:80] + ["..."]) for k, x in f.items()}
         case = {"param_set": o["param"], "message": what, "handled_as": o["member"], "class_representative_handled_as": o["representative"]}
         if o["representative"].get("panic") or ((f["msg"], f["class"]) in accepted) != (o["representative"].get("ret") == "ok") and f["class"] not in ("good_extra_bytes", "right_extra_bytes"):
-            raise lib.ToolError("family runner: the representative of class %s / %s is not handled as the model says" % (f["msg"], f["class"]))
+            # (the model's transitions say which classes are accepted; the edge replay above judges the same call in every state)
+            v.violation("a handshake message of class %s / %s is not handled as the model says (accepted exactly: status ok / ok_simultaneous, a good challenge, the right acknowledgement)" % (f["msg"], f["class"]), case)
+            continue
         if o["member"].get("panic"):
             v.violation("a handshake message made its handler panic", case)
         elif o["member"] != o["representative"]:
